@@ -217,6 +217,7 @@ func (b *Batch) Compile(needUnopt bool) bool {
 			}
 			b.crossCheck()
 			must(os.Rename(filepath.Join(b.Dir, "st_tmp"), filepath.Join(b.Dir, "unopt")))
+			b.dropUnusedAPIImport(filepath.Join(b.Dir, "unopt", b.Prog.Pkg))
 			os.RemoveAll(filepath.Join(b.Dir, "st"))
 		} else {
 			// link the optimised build twice; unopt is not part of this check's verdict
@@ -235,8 +236,14 @@ func (b *Batch) Compile(needUnopt bool) bool {
 			}
 			line, _ := strconv.Atoi(m[2])
 			fn := funcAt(filepath.Join(b.Dir, m[1]), line)
-			if fn == "" {
-				ev.Infra("build error outside any function:\n%s", firstLines(out, 20))
+			if fn == "" || b.Prog.Find(fn) == nil {
+				// not a generated function: a raw-declaration (template) file
+				base := filepath.Base(m[1])
+				if ext := b.Prog.ExternOf(base); ext != "" {
+					fn = ext
+				} else {
+					ev.Infra("build error outside any generated function:\n%s", firstLines(out, 20))
+				}
 			}
 			if _, ok := culprits[fn]; !ok {
 				culprits[fn] = GateFailure{Func: fn, Stage: stage, Msg: m[4]}
@@ -279,6 +286,71 @@ func (b *Batch) copySkipped() {
 			}
 		}
 	}
+}
+
+// dropUnusedAPIImport makes the intermediate stage buildable: the rewrite stage leaves the
+// (now unused) import of the API package in place, removing it is the job of the optimise
+// stage's import clean-up. Only that one import is touched, and only when the file no
+// longer refers to the package.
+func (b *Batch) dropUnusedAPIImport(dir string) {
+	ents, err := os.ReadDir(dir)
+	must(err)
+	const path = `"github.com/goghcrow/go-co"`
+	for _, e := range ents {
+		if !strings.HasSuffix(e.Name(), ".go") {
+			continue
+		}
+		file := filepath.Join(dir, e.Name())
+		data, err := os.ReadFile(file)
+		must(err)
+		lines := strings.Split(string(data), "\n")
+		for i, l := range lines {
+			t := strings.TrimSpace(l)
+			if !strings.HasSuffix(t, path) {
+				continue
+			}
+			name := strings.TrimSpace(strings.TrimSuffix(strings.TrimPrefix(t, "import"), path))
+			if name == "" {
+				name = "co"
+			}
+			rest := strings.Join(append(append([]string{}, lines[:i]...), lines[i+1:]...), "\n")
+			used := usesPkgName(rest, name)
+			if !used {
+				if strings.HasPrefix(t, "import") {
+					lines[i] = ""
+				} else {
+					lines = append(lines[:i], lines[i+1:]...)
+				}
+				must(os.WriteFile(file, []byte(strings.Join(lines, "\n")), 0o644))
+			}
+			break
+		}
+	}
+}
+
+func usesPkgName(src, name string) bool {
+	f, err := parser.ParseFile(token.NewFileSet(), "x.go", src, parser.SkipObjectResolution)
+	if err != nil {
+		return true
+	}
+	used := false
+	ast.Inspect(f, func(n ast.Node) bool {
+		switch n := n.(type) {
+		case *ast.SelectorExpr:
+			if id, ok := n.X.(*ast.Ident); ok && id.Name == name {
+				used = true
+			}
+			if name == "." {
+				return false // x.Yield is not the API's Yield
+			}
+		case *ast.Ident:
+			if name == "." && (n.Name == "Yield" || n.Name == "YieldFrom" || n.Name == "Iter") {
+				used = true
+			}
+		}
+		return !used
+	})
+	return used
 }
 
 // crossCheck: the hook's optimised output must be byte-identical to production Compile's.
